@@ -143,6 +143,12 @@ def body(chk):
     for j, (n, p, rpc) in enumerate(big):
         cases.append(dict(level="1.5", big=True, images=[("HH", None, n, p)], rpc=rpc, seed=chk.seed + 970 + j, fss=["vtrace"],
                           sels=[("slice", 3, 5, 1), ("int", 0), ("list", [0, n - 1]), ("slice", 0, n, max(1, n // 3))], origin="big-records", special=False))
+    # the CALLER's process runs under an address-space limit (`ulimit -v 4194304`): no request fails, nothing about the product or the
+    # options differs -- a group of lines is still one request (ImageIOEnv has no process state: the envelope is a function of geometry,
+    # rpc and selection alone)
+    for j, (n, p, rpc) in enumerate([(100, 494904, None), (100, 494904, 50)] + ([(140, 494904, 1024)] if chk.tier == "thorough" else [])):
+        cases.append(dict(level="1.5", big=True, images=[("HH", None, n, p)], rpc=rpc, seed=chk.seed + 980 + j, fss=["vtrace"], as_limit=4 << 30,
+                          sels=[("slice", 3, 5, 1), ("int", 0), ("list", [0, n - 1]), ("slice", 0, n, max(1, n // 3))], origin="address-space-limit", special=False))
     L.tables()
     want = [dict(L.SMALL_LEADER), dict(L.SMALL_LEADER, nmap=0), dict(file="volume", nfp=3), dict(file="volume", nfp=5),
             dict(file="volume", nfp=4), dict(file="trailer", nlow=0, lens=[])]
@@ -160,6 +166,8 @@ def body(chk):
     nloads = 0
     for res in results:
         c = res["case"]
+        if c.get("as_limit") and not res.get("as_limit_applied"):
+            chk.note(f"address-space limit of {c['as_limit']} bytes NOT applied for seed {c['seed']} (the worker's address space left no head room): the case ran unlimited")
         if c.get("may_reject"):   # spellings of the request size that an implementation may refuse: nothing to judge then
             res["runs"] = [run for run in res["runs"] if run["open"] == "ok"]
         for run in res["runs"]:
